@@ -401,16 +401,21 @@ func GlobalMap(g *ssa.Global) (map[string]Val, bool) {
 	for _, ref := range *mk.Referrers() {
 		switch x := ref.(type) {
 		case *ssa.MapUpdate:
-			k, ok1 := x.Key.(*ssa.Const)
+			var kv constant.Value
+			if k, ok1 := x.Key.(*ssa.Const); ok1 && k.Value != nil {
+				kv = k.Value
+			} else if sk, okS := StdlibConst(x.Key); okS {
+				kv = sk
+			}
 			v, ok2 := x.Value.(*ssa.Const)
-			if !ok1 || !ok2 || k.Value == nil {
+			if kv == nil || !ok2 {
 				complete = false
 				continue
 			}
 			if v.Value == nil {
-				tbl[k.Value.ExactString()] = Val{K: Nil}
+				tbl[kv.ExactString()] = Val{K: Nil}
 			} else {
-				tbl[k.Value.ExactString()] = Val{K: Const, C: v.Value}
+				tbl[kv.ExactString()] = Val{K: Const, C: v.Value}
 			}
 		case *ssa.Store:
 		default:
@@ -439,6 +444,50 @@ func GlobalMap(g *ssa.Global) (map[string]Val, bool) {
 	globalMaps[g] = tbl
 	globalMapsComplete[g] = complete
 	return tbl, complete
+}
+
+// StdlibConst recognises values that are constants by a standard-library
+// contract: elliptic.P256().Params().Name == "P-256" (P-224, P-384, P-521 alike).
+func StdlibConst(v ssa.Value) (constant.Value, bool) {
+	u, ok := v.(*ssa.UnOp)
+	if !ok || u.Op != token.MUL {
+		return nil, false
+	}
+	fa, ok := u.X.(*ssa.FieldAddr)
+	if !ok {
+		return nil, false
+	}
+	pt, ok := fa.X.Type().Underlying().(*types.Pointer)
+	if !ok {
+		return nil, false
+	}
+	st, ok := pt.Elem().Underlying().(*types.Struct)
+	if !ok || st.Field(fa.Field).Name() != "Name" {
+		return nil, false
+	}
+	pc, ok := fa.X.(*ssa.Call)
+	if !ok || !pc.Call.IsInvoke() || pc.Call.Method.Name() != "Params" {
+		return nil, false
+	}
+	cc, ok := pc.Call.Value.(*ssa.Call)
+	if !ok {
+		return nil, false
+	}
+	callee := cc.Call.StaticCallee()
+	if callee == nil {
+		return nil, false
+	}
+	switch callee.String() {
+	case "crypto/elliptic.P224":
+		return constant.MakeString("P-224"), true
+	case "crypto/elliptic.P256":
+		return constant.MakeString("P-256"), true
+	case "crypto/elliptic.P384":
+		return constant.MakeString("P-384"), true
+	case "crypto/elliptic.P521":
+		return constant.MakeString("P-521"), true
+	}
+	return nil, false
 }
 
 // storeKey records the last value stored into a struct field of that name.
